@@ -369,6 +369,39 @@ fn he_addrs_front() {
     assert!(addrs.is_empty());
 }
 
+/// he.new.config [C10,C11]: `new` stores the pacing configuration as given - a different value in every slot, so a
+/// swapped or dropped field shows
+#[test]
+fn he_new_config() {
+    let set: Set = EyeballSet::new(Some(Duration::from_millis(7)), Some(Duration::from_secs(11)), Some(3));
+    assert_eq!(set.delay, Some(Duration::from_millis(7)), "stagger delay");
+    assert_eq!(set.timeout, Some(Duration::from_secs(11)), "overall deadline");
+    assert_eq!(set.initial_concurrency, Some(3), "initial concurrency");
+    let set: Set = EyeballSet::new(None, Some(LONG), None);
+    assert_eq!((set.delay, set.timeout, set.initial_concurrency), (None, Some(LONG), None));
+}
+
+/// he.len [C11]: every candidate is counted once, queued or running
+#[tokio::test]
+async fn he_len() {
+    let Rig { mut set, log, tx: _tx } = rig(3, Some(LONG), None, Some(2));
+    assert_eq!(set.len(), 3, "three queued candidates");
+    assert!(!set.is_empty());
+    // start the initial batch only (the set's own step; `process_all` would already take the next candidate out of
+    // the queue while it waits): two running + one queued
+    for _ in 0..2 {
+        let f = set.queue.pop_front().unwrap();
+        set.tasks.push(f);
+    }
+    assert_eq!(set.len(), 3, "two running + one queued");
+    {
+        let mut fut: Pin<Box<dyn Future<Output = _> + '_>> = Box::pin(set.join_next());
+        assert!(step(&mut fut).await.is_pending());
+    }
+    assert_eq!(starts(&log), vec![0, 1]);
+    assert_eq!(set.len(), 3, "polling does not change the count");
+}
+
 // ======================= bounded stand-ins for the TIME clauses (outside contracts) =======================
 // Real timers (tokio's test-util is not enabled in the crate).  Both tests are one-sided in the direction that
 // machine load cannot falsify: timers never fire early, and the deadline test allows 2.5x slack.
